@@ -518,13 +518,13 @@ def quiet():
 
 
 # ============================================================================================ part 2: hierarchies
-HALL = ["A", "B1", "B2", "C1", "C2"]
-HATTR = dict(A="a", B1="b1", B2="b2", C1="c1", C2="c2")
+HALL = ["A", "B1", "B2", "C1", "C2", "D1"]
+HATTR = dict(A="a", B1="b1", B2="b2", C1="c1", C2="c2", D1="d1")
 MCFGS = ["none", "wpstar", "plselectin", "plinline"]
 
 
 class Hier:
-    """One mapped hierarchy: classes `cls` (parent-closed subset of HALL), C2 below `c2par`, `tabs` = classes with a table of their own
+    """One mapped hierarchy: classes `cls` (parent-closed subset of HALL: A; B1, B2 < A; C1 < B1; C2 < c2par; D1 < C1), `tabs` = classes with a table of their own
     (joined-table inheritance), all others stored in the table of their nearest ancestor that has one (single-table inheritance).
     mcfg = mapper-level polymorphic loading configuration (does not change what a query means)."""
 
@@ -534,7 +534,7 @@ class Hier:
         from sqlalchemy.pool import StaticPool
         self.sa, self.orm = sa, orm
         self.cls = [c for c in HALL if c in cls]
-        self.par = par = dict(B1="A", B2="A", C1="B1", C2=c2par)
+        self.par = par = dict(B1="A", B2="A", C1="B1", C2=c2par, D1="C1")
         self.tabs = set(tabs)
         md = sa.MetaData()
         reg = orm.registry()
